@@ -770,6 +770,38 @@ qb_log_filter_ctl2(int32_t t, enum qb_log_filter_conf c,
 		regex = new_flt->regex;
 	}
 	qb_list_for_each_entry(sect, &callsite_sections, list) {
+		if (c == QB_LOG_FILTER_REMOVE || c == QB_LOG_TAG_CLEAR) {
+			/*
+			 * What selects (or tags) a call site now is the
+			 * filters that are left, not the arguments of this
+			 * call: start from nothing and apply those, as is
+			 * done for a call site that is seen for the first time.
+			 */
+			struct qb_list_head *flt_head;
+			struct qb_list_head *iter;
+			struct qb_log_filter *flt;
+
+			if (c == QB_LOG_FILTER_REMOVE) {
+				flt_head = &conf[t].filter_head;
+				_log_filter_apply(sect, t, QB_LOG_FILTER_CLEAR_ALL,
+						  type, text, NULL,
+						  high_priority, low_priority);
+			} else {
+				flt_head = &tags_head;
+				_log_filter_apply(sect, t, QB_LOG_TAG_CLEAR_ALL,
+						  type, text, NULL,
+						  high_priority, low_priority);
+			}
+			qb_list_for_each(iter, flt_head) {
+				flt = qb_list_entry(iter, struct qb_log_filter, list);
+				_log_filter_apply(sect,
+						  (c == QB_LOG_FILTER_REMOVE) ? t : flt->new_value,
+						  flt->conf, flt->type, flt->text,
+						  flt->regex, flt->high_priority,
+						  flt->low_priority);
+			}
+			continue;
+		}
 		_log_filter_apply(sect, t, c, type, text, regex, high_priority, low_priority);
 	}
 	pthread_rwlock_unlock(&_listlock);
